@@ -79,7 +79,8 @@ KEYS = {
     "lut": ("calculation", "emodulus lut", ["HE-3D-FEM-22", "LE-2D-FEM-19"]),
     "med": ("calculation", "emodulus medium",
             ["CellCarrier", "other", "water", "CellCarrier B", "0.49% MC-PBS", "honey"]),
-    "T": ("calculation", "emodulus temperature", [23.0, 25.5, 30.0]),
+    # incl. 0.0 (valid for water; a falsy but *set* temperature)
+    "T": ("calculation", "emodulus temperature", [23.0, 25.5, 30.0, 0.0]),
     "visc": ("calculation", "emodulus viscosity", [1.0, 2.5, 9.0]),
     "vm": ("calculation", "emodulus viscosity model",
            ["buyukurganci-2022", "herold-2017"]),
@@ -434,6 +435,7 @@ class Sim:
         self.data = make_data(spec)
         self.fmt = spec["fmt"]
         self.cfg = {k: KEYS[k][2][i % len(KEYS[k][2])] for k, i in spec["cfg"].items()}
+        self._sane_T(None)
         self.temps = {nm: temp_data(nm, sd, self.n)
                       for nm, sd in sorted(spec["temps"].items())}
         self.mask = filter_mask(spec["mask"], self.n)
@@ -789,11 +791,22 @@ class Sim:
         if self.nontrivial:
             rec.nontrivial()
 
+    def _sane_T(self, ds):
+        """0 degC is only inside the documented range of the water model (the
+        MC-PBS models divide by it): a history that would leave T=0.0 with another
+        medium continues with the user setting 23.0 instead"""
+        if self.cfg.get("T") == 0.0 and self.cfg.get("med") != "water":
+            self.cfg["T"] = 23.0
+            if ds is not None:
+                ds.config["calculation"]["emodulus temperature"] = 23.0
+            self.rec.cls("op:T0-replaced")
+
     def op_set(self, key, vidx):
         sec, name, vals = KEYS[key]
         val = vals[vidx % len(vals)]
         self.ds.config[sec][name] = val
         self.cfg[key] = val
+        self._sane_T(self.ds)
 
     def op_del(self, key):
         sec, name, _ = KEYS[key]
@@ -802,6 +815,7 @@ class Sim:
             return
         del self.ds.config[sec][name]
         del self.cfg[key]
+        self._sane_T(self.ds)
 
     def op_temp(self, name, seed, child):
         full = temp_data(name, seed, self.n)
